@@ -4,6 +4,7 @@ Driver code for the `ska lo` helper operations (C17, C18).
 import SkaModel.Impl.Skalo
 import SkaModel.Impl.SkaloDerep
 import SkaModel.Impl.SkaloPipe
+import SkaModel.Impl.SkaloRef
 import SkaModel.DriverBase
 import SkaModel.DriverHist
 
@@ -79,9 +80,25 @@ def runLo (c : Case) : String × String :=
             s!"cols={joinStr (sortStrings (cols.map strOf))} recs={joinStr rs}"
         -- the arrival order of the groups must not matter: also run on the reversed lists
         let rev : Groups := { snpGroups := gr.snpGroups.reverse, indelGroups := gr.indelGroups.reverse }
-        let r1 := analyse W kg n mNum mDen (c.nat "ik") col gr
-        let r2 := analyse W kg n mNum mDen (c.nat "ik") col rev
-        (s!"{head} {fmtR r1}", s!"{head} {fmtR r2}")
+        match c.kv.find? (·.1 == "ref") with
+        | none =>
+          let r1 := analyse W kg n mNum mDen (c.nat "ik") col gr
+          let r2 := analyse W kg n mNum mDen (c.nat "ik") col rev
+          (s!"{head} {fmtR r1}", s!"{head} {fmtR r2}")
+        | some (_, refS) =>
+          -- with a reference: positioned columns through the writer, in position order
+          let genome := genomeBytes (bytesOf refS)
+          let fmtP := fun (r : Option (List (Nat × List UInt8) × List IndelRec)) =>
+            match r with
+            | none => "panic"
+            | some (placed, recs) =>
+              let o := createFastaAndVcf genome n placed
+              let ps := o.vcf.map (fun (x : Nat × UInt8 × List UInt8) => s!"{x.1 + 1}:{strOf [x.2.1]}:{strOf x.2.2}")
+              let rs := recs.map (fun (x : IndelRec) =>
+                s!"{strOf x.ref}:{strOf x.alt}:{strOf x.before}:{strOf x.after}:{String.intercalate "|" x.calls}")
+              s!"cols={joinStr ps} recs={joinStr rs}"
+          (s!"{head} {fmtP (analyseRef W kg n mNum mDen (c.nat "ik") col gr genome)}",
+           s!"{head} {fmtP (analyseRef W kg n mNum mDen (c.nat "ik") col rev genome)}")
   | "lo_out" =>
     let genome := bytesOf (c.text "genome")
     let n := c.nat "n"
